@@ -262,10 +262,10 @@ fn alias_of(underlying: TypeRef) -> TypeAlias {
 //@ inst: recording Visitor; hand-built TypeAlias of Sequence<Dictionary<K, V>> (K, V unresolved references); optionality flags symbolic
 //@ inputs: is_optional of the alias's type and of the element type
 //@ oracle: recorded == [alias, its type, element type, key type, value type], each by address, nothing else: nested types depth-first, key before value
-//@ bound: unwind 3 (also bounds the recursion of TypeRef::visit_with); nesting depth 2
+//@ bound: unwind 4 (also bounds the recursion of TypeRef::visit_with); nesting depth 2
 //@ timeout: 900
 #[kani::proof]
-#[kani::unwind(3)]
+#[kani::unwind(4)]
 fn k20_alias_seq_of_dict() {
     let inner_dict = OwnedPtr::new(Dictionary { key_type: unpatched(), value_type: unpatched() });
     let mut elem = patched(upcast_weak_as!(inner_dict.downgrade(), dyn Type));
@@ -291,45 +291,59 @@ fn k20_alias_seq_of_dict() {
 //@ prop: C20
 //@ family: K20-catalogue
 //@ tier: quick
-//@ functions: TypeAlias::visit_with, TypeRef::visit_with (Dictionary, Sequence, ResultType arms)
-//@ inst: recording Visitor; hand-built TypeAlias of Dictionary<K, Result<S, Sequence<E>>>-like shapes reduced to two concrete ones selected symbolically: Dictionary<K, Sequence<E>> and Result<S, F>
-//@ inputs: which of the two shapes
-//@ oracle: Dictionary: [alias, type, key, value, element nested in the value]; Result: [alias, type, success, failure]; each by address, nothing else
-//@ bound: unwind 3; nesting depth 2
+//@ functions: TypeAlias::visit_with, TypeRef::visit_with (ResultType arm)
+//@ inst: recording Visitor; hand-built TypeAlias of Result<S, F> (S, F unresolved references); optionality of the alias's type symbolic
+//@ inputs: is_optional of the alias's type
+//@ oracle: recorded == [alias, its type, success type, failure type], each by address, nothing else
+//@ bound: unwind 4 (bounds the recursion of TypeRef::visit_with and covers an iterative traversal of the 3 type references); unwind 5 exceeds 12 GB
 //@ timeout: 900
 #[kani::proof]
-#[kani::unwind(3)]
-fn k20_alias_dict_and_result() {
-    let result_shape: bool = kani::any();
-    kani::cover!(result_shape, "Result reachable");
-    kani::cover!(!result_shape, "Dictionary<_, Sequence> reachable");
-    if result_shape {
-        let res = OwnedPtr::new(ResultType { success_type: unpatched(), failure_type: unpatched() });
-        let a = alias_of(patched(upcast_weak_as!(res.downgrade(), dyn Type)));
-        let mut r = Rec::new();
-        a.visit_with(&mut r);
-        let rr = res.borrow();
-        assert!(r.n == 4, "exactly alias + 3 type references");
-        assert!(r.is(0, ALIAS, &a) && r.is(1, TYPEREF, &a.underlying), "alias, then its type");
-        assert!(r.is(2, TYPEREF, &rr.success_type) && r.is(3, TYPEREF, &rr.failure_type), "success, then failure");
-        core::mem::forget(a);
-        core::mem::forget(res);
-    } else {
-        let inner_seq = OwnedPtr::new(Sequence { element_type: unpatched() });
-        let dict_of_seq = OwnedPtr::new(Dictionary { key_type: unpatched(), value_type: patched(upcast_weak_as!(inner_seq.downgrade(), dyn Type)) });
-        let a = alias_of(patched(upcast_weak_as!(dict_of_seq.downgrade(), dyn Type)));
-        let mut r = Rec::new();
-        a.visit_with(&mut r);
-        let ds = dict_of_seq.borrow();
-        let s = inner_seq.borrow();
-        assert!(r.n == 5, "exactly alias + 4 type references");
-        assert!(r.is(0, ALIAS, &a) && r.is(1, TYPEREF, &a.underlying), "alias, then its type");
-        assert!(r.is(2, TYPEREF, &ds.key_type) && r.is(3, TYPEREF, &ds.value_type), "key, then value");
-        assert!(r.is(4, TYPEREF, &s.element_type), "then the element type nested inside the value");
-        core::mem::forget(a);
-        core::mem::forget(dict_of_seq);
-        core::mem::forget(inner_seq);
-    }
+#[kani::unwind(4)]
+fn k20_alias_result() {
+    let res = OwnedPtr::new(ResultType { success_type: unpatched(), failure_type: unpatched() });
+    let mut u = patched(upcast_weak_as!(res.downgrade(), dyn Type));
+    u.is_optional = kani::any();
+    let a = alias_of(u);
+    let mut r = Rec::new();
+    a.visit_with(&mut r);
+    kani::cover!(a.underlying.is_optional, "optional Result reachable");
+    let rr = res.borrow();
+    assert!(r.n == 4, "exactly alias + 3 type references");
+    assert!(r.is(0, ALIAS, &a) && r.is(1, TYPEREF, &a.underlying), "alias, then its type");
+    assert!(r.is(2, TYPEREF, &rr.success_type) && r.is(3, TYPEREF, &rr.failure_type), "success, then failure");
+    core::mem::forget(a);
+    core::mem::forget(res);
+}
+
+//@ prop: C20
+//@ family: K20-catalogue
+//@ tier: quick
+//@ functions: TypeAlias::visit_with, TypeRef::visit_with (Dictionary and Sequence arms)
+//@ inst: recording Visitor; hand-built TypeAlias of Dictionary<K, Sequence<E>> (K, E unresolved references); optionality of the value type symbolic
+//@ inputs: is_optional of the value type
+//@ oracle: recorded == [alias, its type, key type, value type, element type nested inside the value], each by address, nothing else
+//@ bound: unwind 4; nesting depth 2
+//@ timeout: 900
+#[kani::proof]
+#[kani::unwind(4)]
+fn k20_alias_dict_of_seq() {
+    let inner_seq = OwnedPtr::new(Sequence { element_type: unpatched() });
+    let mut value = patched(upcast_weak_as!(inner_seq.downgrade(), dyn Type));
+    value.is_optional = kani::any();
+    let dict_of_seq = OwnedPtr::new(Dictionary { key_type: unpatched(), value_type: value });
+    let a = alias_of(patched(upcast_weak_as!(dict_of_seq.downgrade(), dyn Type)));
+    let mut r = Rec::new();
+    a.visit_with(&mut r);
+    let ds = dict_of_seq.borrow();
+    let s = inner_seq.borrow();
+    kani::cover!(ds.value_type.is_optional, "optional value type reachable");
+    assert!(r.n == 5, "exactly alias + 4 type references");
+    assert!(r.is(0, ALIAS, &a) && r.is(1, TYPEREF, &a.underlying), "alias, then its type");
+    assert!(r.is(2, TYPEREF, &ds.key_type) && r.is(3, TYPEREF, &ds.value_type), "key, then value");
+    assert!(r.is(4, TYPEREF, &s.element_type), "then the element type nested inside the value");
+    core::mem::forget(a);
+    core::mem::forget(dict_of_seq);
+    core::mem::forget(inner_seq);
 }
 
 //@ prop: C20
